@@ -19,6 +19,7 @@ let () =
     | "so" -> So.run ~tier:!tier ~seed:!seed ~only:!only acc; So.rule
     | "fs" -> Fs.run ~tier:!tier ~seed:!seed ~only:!only acc; Fs.rule
     | "lk" -> Lk.run ~tier:!tier ~seed:!seed ~only:!only acc; Lk.rule
+    | "pl" -> Pl.run ~tier:!tier ~seed:!seed ~only:!only acc; Pl.rule
     | "c12" -> C12.run ~tier:!tier ~seed:!seed ~only:!only acc; C12.rule
     | "c15" -> C15.run ~tier:!tier ~seed:!seed ~only:!only acc; C15.rule
     | "c17" -> C17.run ~tier:!tier ~seed:!seed ~only:!only acc; C17.rule
